@@ -1,23 +1,351 @@
 // Property-specific configuration, plans and oracles.
 #include "oracles.h"
+#include <algorithm>
+#include <ares_dns_record.h>
 
-void profile_cfg_more(const std::string &prof, uint64_t seed, RunCfg &c, Rng &r) {
-  (void)prof; (void)seed; (void)c; (void)r;
+using dnsref::Msg;
+
+static std::vector<int> weights(std::initializer_list<std::pair<int, int>> l) {
+  std::vector<int> w(S_NKINDS, 0);
+  for (auto &p : l) w[(size_t)p.first] = p.second;
+  return w;
+}
+static void gen(const RunCfg &c, Rng &r, std::vector<Step> &plan, const std::vector<int> &w0, int nmin, int nmax) {
+  std::vector<int> w = w0;
+  if (!c.faults) { w[S_NETOP] = 0; w[S_FAULT] = 0; w[S_PARTITION] = 0; w[S_CHUNK] = 0; w[S_FORGE] = w[S_FORGE]; }
+  int n = nmin + (int)r.below((uint64_t)(nmax - nmin + 1));
+  for (int i = 0; i < n; i++) {
+    Step s;
+    s.k = r.pick(w);
+    if (s.k == 0) s.k = S_ADV;
+    s.a = (int64_t)r.below(1000); s.b = (int64_t)r.below(1000); s.c = (int64_t)r.below(1000000); s.d = (int64_t)r.below(1000);
+    switch (s.k) {
+      case S_ADV: s.a = r.pick({60, 15, 15, 10}); s.b = r.chance(0.8) ? 0 : 1 + (int64_t)r.below(4); s.c = r.chance(0.5) ? (int64_t)r.below(3) : (int64_t)r.below(500000); break;
+      case S_STALL: s.a = r.chance(0.7) ? (int64_t)r.below(3000) : (int64_t)r.below(120000); break;
+      case S_REQ: if (!c.allow_cancel_in_cb && (s.d % R_NREACT) == R_CANCEL) s.d += 1; break;
+      default: break;
+    }
+    plan.push_back(s);
+  }
 }
 
+// ---------------------------------------------------------------------------------------------
+// configuration
+// ---------------------------------------------------------------------------------------------
+void profile_cfg_more(const std::string &prof, uint64_t seed, RunCfg &c, Rng &r) {
+  (void)seed;
+  if (prof == "C03") {
+    c.beh_w = {90, 0, 0, 0, 0, 0, 6, 2, 1, 1, 0, 0, 0, 0, 0};   // answers, some TC (tcp upgrade), few silences; no FORMERR (keeps the expected frame exact)
+    c.qcache_max_ttl = r.chance(0.5) ? 0 : 300;
+    c.knobs["rich_pct"] = 55;
+    if (r.chance(0.5)) c.flags = (c.flags < 0 ? ARES_FLAG_EDNS : c.flags) | (r.chance(0.5) ? ARES_FLAG_USEVC : 0);
+    c.pending_write_cb = r.chance(0.5);
+    c.prof.big_answer_pct = 8;
+  } else if (prof == "C06") {
+    c.allow_cancel_in_cb = 0;
+    if (r.chance(0.25)) { c.tries = r.chance(0.5) ? 5 + (int)r.below(20) : 60 + (int)r.below(45); c.maxtimeout_ms = r.chance(0.6) ? 1 + (int)r.below(400) : -1; c.timeout_ms = 1 + (int)r.below(300); }
+    if (r.chance(0.1)) c.timeout_ms = r.chance(0.5) ? 1 : 2147483647;
+    if (r.chance(0.1)) c.maxtimeout_ms = 1 + (int)r.below(249);
+    c.beh_w = {40, 8, 4, 2, 6, 2, 8, 20, 3, 1, 2, 0, 2, 2, 0};
+    for (auto &s : c.servers) s.cookie_mode = r.chance(0.3) ? (int)r.below(CK_NMODES) : 0;
+    c.qcache_max_ttl = 0;
+    c.knobs["nactive"] = 1 + (int64_t)r.below(c.servers.size());
+    if (r.chance(0.2)) {   // dead servers: every attempt of the budget is consumed
+      c.beh_w = {0, 10, 5, 0, 0, 0, 0, 80, 0, 0, 5, 0, 0, 0, 0};
+      if (r.chance(0.5)) c.knobs["nactive"] = 1;
+    }
+  } else if (prof == "C07") {
+    c.allow_cancel_in_cb = 0;
+    c.beh_w = {45, 4, 2, 0, 3, 0, 5, 35, 4, 1, 1, 0, 1, 0, 0};
+    c.qcache_max_ttl = 0;
+  } else if (prof == "C10") {
+    c.allow_cancel_in_cb = 1;
+    if (r.chance(0.5)) c.udp_max_queries = 1 + (int)r.below(3);
+    if (r.chance(0.3)) c.flags = (c.flags < 0 ? ARES_FLAG_EDNS : c.flags) | ARES_FLAG_USEVC;
+    if (r.chance(0.5)) c.sock_create_cb = 1 + (int)r.below(2);
+    if (r.chance(0.5)) c.sock_config_cb = 1 + (int)r.below(2);
+    if (r.chance(0.3)) c.local_dev = "eth0";
+    if (r.chance(0.3)) c.local_ip4 = 0xC000024D;   // 192.0.2.77
+    if (r.chance(0.2)) c.local_ip6 = true;
+    if (r.chance(0.3)) { c.sndbuf = 4096 + (int)r.below(100000); c.rcvbuf = 4096 + (int)r.below(100000); }
+    c.beh_w = {60, 4, 2, 1, 3, 1, 10, 8, 3, 2, 2, 0, 3, 3, 1};
+    c.knobs["nactive"] = 1 + (int64_t)r.below(c.servers.size());
+    for (auto &s : c.servers) { if (r.chance(0.15)) s.tcp_refuse = true; else if (r.chance(0.1)) s.tcp_blackhole = true; }
+  }
+}
+
+// ---------------------------------------------------------------------------------------------
+// plans
+// ---------------------------------------------------------------------------------------------
 bool profile_plan_more(const RunCfg &c, Rng &r, std::vector<Step> &plan) {
-  (void)c; (void)r; (void)plan;
+  const std::string &p = c.profile;
+  if (p == "C03") { gen(c, r, plan, weights({{S_REQ, 40}, {S_ADV, 45}, {S_CHUNK, 10}, {S_STALL, 1}, {S_FAULT, 2}}), 20, 120); for (auto &s : plan) if (s.k == S_FAULT) { s.a = FC_SEND; s.b = 0; s.c = 2 + 4 * (r.chance(0.5) ? 1 : 0) + 16 * (int64_t)r.below(20); } return true; }
+  if (p == "C06") { gen(c, r, plan, weights({{S_REQ, 22}, {S_ADV, 50}, {S_STALL, 4}, {S_NETOP, 6}, {S_FAULT, 10}, {S_PARTITION, 3}, {S_SETSRV, 3}, {S_REINIT, 1}, {S_CHUNK, 2}}), 20, 120); return true; }
+  if (p == "C07") { gen(c, r, plan, weights({{S_REQ, 25}, {S_ADV, 60}, {S_STALL, 8}, {S_NETOP, 4}, {S_PARTITION, 3}, {S_CANCEL, 1}}), 20, 140); return true; }
+  if (p == "C10") { gen(c, r, plan, weights({{S_REQ, 28}, {S_ADV, 40}, {S_CANCEL, 3}, {S_STALL, 2}, {S_NETOP, 5}, {S_FAULT, 14}, {S_CHUNK, 3}, {S_SETSRV, 3}, {S_REINIT, 1}, {S_PARTITION, 1}}), 20, 140);
+    for (auto &s : plan) if (s.k == S_FAULT && r.chance(0.6)) s.a = (int64_t)r.below(5);   // bias to creation-path faults: socket/setsockopt/bind/connect/getsockname
+    return true; }
   return false;
 }
 
-void profile_attach_more(Run &run) { (void)run; }
+// ---------------------------------------------------------------------------------------------
+// helpers
+// ---------------------------------------------------------------------------------------------
+static bool name_has_prefix_ci(const dnsref::Name &full, const dnsref::Name &pre) {
+  if (pre.size() > full.size()) return false;
+  for (size_t i = 0; i < pre.size(); i++) {
+    if (full[i].size() != pre[i].size()) return false;
+    for (size_t j = 0; j < pre[i].size(); j++) if (tolower((unsigned char)full[i][j]) != tolower((unsigned char)pre[i][j])) return false;
+  }
+  return true;
+}
+
+// Resp that a set of delivered markers points at (-1 none, -2 mixed)
+static int resp_of_markers(const std::vector<uint32_t> &ms) {
+  int rid = -1;
+  for (uint32_t m : ms) {
+    auto it = W.marker_resp.find(m);
+    if (it == W.marker_resp.end()) continue;
+    if (rid == -1) rid = it->second;
+    else if (rid != it->second) return -2;
+  }
+  return rid;
+}
+
+// ---------------------------------------------------------------------------------------------
+// C03: what goes on the wire (and back to callbacks) is what was meant
+// ---------------------------------------------------------------------------------------------
+struct RichReq { Msg expect; };
+static std::map<int, RichReq> g_rich;   // token -> expected message (reference form)
+
+static void c03_tx(Run &run, Tx &t) {
+  if (!t.decode_err.empty()) {
+    run.violate("C03", "malformed_frame_on_wire", std::string(t.tcp ? "tcp" : "udp") + " frame of " + std::to_string(t.wire.size()) + " bytes at stream offset " + std::to_string(t.stream_off) + " does not decode: " + t.decode_err);
+    return;
+  }
+  if (t.token < 0 || t.token >= (int)run.reqs.size()) return;
+  const Req &r = run.reqs[(size_t)t.token];
+  const Msg &m = t.msg;
+  if ((m.flags & dnsref::F_QR) || m.opcode() != 0) run.violate("C03", "query_header", "transmitted message has QR/opcode " + std::to_string(m.flags));
+  auto it = g_rich.find(t.token);
+  if (it != g_rich.end()) {
+    run.note("rich_frame_checked");
+    if (t.wire.size() > 16384) run.note("rich_frame_over_16k");
+    if (t.stream_off > 0) run.note("rich_frame_behind_queued_bytes");
+    std::string got = dnsref::dump_msg(m, false, false, true, true), exp = dnsref::dump_msg(it->second.expect, false, false, true, true);
+    if (got != exp) run.violate("C03", "frame_differs_from_request", "request built with the record setters arrives changed (offset " + std::to_string(t.stream_off) + ", " + (t.tcp ? "tcp" : "udp") + ")\n--- expected\n" + exp + "--- got\n" + got);
+    return;
+  }
+  if (m.qd.size() != 1) { run.violate("C03", "question_count", "expected one question, saw " + std::to_string(m.qd.size())); return; }
+  if (!m.an.empty() || !m.ns.empty()) run.violate("C03", "unexpected_sections", "query carries answer/authority records");
+  if (r.kind == K_GETHOSTBYADDR || r.kind == K_GETNAMEINFO) return;   // reverse name checked by C13
+  dnsref::Name want = dnsref::name_from_text(r.name);
+  if (!name_has_prefix_ci(m.qd[0].name, want)) run.violate("C03", "qname_differs", "request " + r.name + " produced question " + dnsref::name_to_text(m.qd[0].name));
+  bool addr_kind = r.kind == K_GETADDRINFO || r.kind == K_GETHOSTBYNAME;
+  if (!addr_kind && m.qd[0].type != r.qtype) run.violate("C03", "qtype_differs", "request type " + std::to_string(r.qtype) + " produced " + std::to_string(m.qd[0].type));
+  if (addr_kind && m.qd[0].type != 1 && m.qd[0].type != 28) run.violate("C03", "qtype_differs", "address lookup produced type " + std::to_string(m.qd[0].type));
+  if (m.qd[0].klass != 1) run.violate("C03", "qclass_differs", "class " + std::to_string(m.qd[0].klass));
+  if (r.kind == K_SEND_DNSREC || r.kind == K_SEARCH_DNSREC) {
+    if (((m.flags & dnsref::F_RD) != 0) != (r.rd != 0)) run.violate("C03", "rd_flag_differs", "RD requested " + std::to_string(r.rd));
+    if (((m.flags & dnsref::F_CD) != 0) != (r.cd != 0)) run.violate("C03", "cd_flag_differs", "CD requested " + std::to_string(r.cd));
+  }
+  size_t nopt = 0;
+  for (auto &rr : m.ar) { if (rr.type == dnsref::T_OPT) nopt++; else run.violate("C03", "unexpected_sections", "query carries a non-OPT additional record"); }
+  if (nopt > 1) run.violate("C03", "two_opt", "two OPT records");
+}
+
+static void c03_done(Run &run, Req &r) {
+  if (r.status != ARES_SUCCESS || !r.got.has) return;
+  if (r.kind > K_SEARCH) return;
+  if (!r.got.decode_err.empty()) { run.violate("C03", "legacy_buffer_malformed", "buffer handed to the legacy callback does not decode: " + r.got.decode_err); return; }
+  int rid = resp_of_markers(r.markers);
+  if (rid < 0) return;
+  const Resp &rs = W.resps[(size_t)rid];
+  if (rs.defect) return;
+  std::string got = dnsref::dump_msg(r.got.msg, false, false, false, true), exp = dnsref::dump_msg(rs.msg, false, false, false, true);
+  run.note("answer_roundtrip_checked");
+  if (got != exp) run.violate("C03", "delivered_answer_differs", std::string("answer delivered through the ") + (r.kind == K_SEND || r.kind == K_QUERY || r.kind == K_SEARCH ? "legacy buffer" : "record") + " callback differs from what the server sent\n--- sent\n" + exp + "--- delivered\n" + got);
+}
+
+// Build a request with several records sharing suffixes through the public setters and send it.
+static void c03_rich_request(Run &run, const Step &s) {
+  Chan &c = run.chans[0];
+  if (!c.alive || run.reqs.size() >= 300) return;
+  Rng r((uint64_t)s.b * 1000003ULL + (uint64_t)s.c + run.cfg.seed);
+  int token = (int)run.reqs.size();
+  run.reqs.emplace_back();
+  run.cbargs.emplace_back(new CbArg{&run, token});
+  Req &rq = run.reqs.back();
+  rq.token = token; rq.kind = K_SEND_DNSREC; rq.chan = 0; rq.t_submit = W.now_us; rq.tx_at_submit = (int)W.txs.size(); rq.accepted = true; rq.in_call = true;
+  std::string zone = "t" + std::to_string(token) + ".rich" + std::to_string(r.below(4)) + ".ex1.test";
+  rq.name = zone; rq.qtype = (int)(r.chance(0.5) ? 1 : 16); rq.qclass = 1;
+  ares_dns_record_t *rec = nullptr;
+  Msg exp;
+  bool rd = r.chance(0.7);
+  unsigned short opcode_flags = (unsigned short)(rd ? ARES_FLAG_RD : 0);
+  if (ares_dns_record_create(&rec, 0, opcode_flags, ARES_OPCODE_QUERY, ARES_RCODE_NOERROR) != ARES_SUCCESS) { rq.accepted = false; return; }
+  exp.flags = rd ? dnsref::F_RD : 0;
+  ares_dns_record_query_add(rec, zone.c_str(), (ares_dns_rec_type_t)rq.qtype, ARES_CLASS_IN);
+  { dnsref::Question q; q.name = dnsref::name_from_text(zone); q.type = (uint16_t)rq.qtype; q.klass = 1; exp.qd.push_back(q); }
+  int nrr = 1 + (int)r.below(r.chance(0.08) ? 1400 : (r.chance(0.15) ? 300 : 12));
+  bool ok = true;
+  for (int i = 0; i < nrr && ok; i++) {
+    ares_dns_section_t sect = r.chance(0.6) ? ARES_SECTION_AUTHORITY : ARES_SECTION_ADDITIONAL;
+    static std::string prev_owner;
+    std::string owner = (r.chance(0.5) ? "h" + std::to_string(r.below(6)) + "." : std::string("")) + zone;
+    if (r.chance(0.3)) owner = "u" + std::to_string(i) + "." + zone;          // a name that first appears here ...
+    else if (i > 0 && r.chance(0.3) && !prev_owner.empty()) owner = prev_owner;   // ... and is referred to again by the next record
+    prev_owner = owner;
+    dnsref::RR e; e.name = dnsref::name_from_text(owner); e.klass = 1; e.ttl = (uint32_t)r.below(100000);
+    ares_dns_rr_t *rr = nullptr;
+    int kind = (int)r.below(7);
+    ares_dns_rec_type_t t = kind == 0 ? ARES_REC_TYPE_A : kind == 1 ? ARES_REC_TYPE_AAAA : kind == 2 ? ARES_REC_TYPE_NS : kind == 3 ? ARES_REC_TYPE_MX : kind == 4 ? ARES_REC_TYPE_TXT : kind == 5 ? ARES_REC_TYPE_SRV : ARES_REC_TYPE_CNAME;
+    if (ares_dns_record_rr_add(&rr, rec, sect, owner.c_str(), t, ARES_CLASS_IN, e.ttl) != ARES_SUCCESS) { ok = false; break; }
+    e.type = (uint16_t)t;
+    std::string tgt = "ns" + std::to_string(r.below(5)) + "." + (r.chance(0.7) ? zone : std::string("other.example"));
+    switch (t) {
+      case ARES_REC_TYPE_A: { struct in_addr a; a.s_addr = htonl(0xC6336400u + (uint32_t)r.below(250)); ares_dns_rr_set_addr(rr, ARES_RR_A_ADDR, &a); e.addr.assign((const char *)&a, 4); break; }
+      case ARES_REC_TYPE_AAAA: { struct ares_in6_addr a; memset(&a, 0, sizeof a); a._S6_un._S6_u8[0] = 0x20; a._S6_un._S6_u8[1] = 0x01; a._S6_un._S6_u8[15] = (unsigned char)r.below(250); ares_dns_rr_set_addr6(rr, ARES_RR_AAAA_ADDR, &a); e.addr.assign((const char *)&a, 16); break; }
+      case ARES_REC_TYPE_NS: ares_dns_rr_set_str(rr, ARES_RR_NS_NSDNAME, tgt.c_str()); e.target = dnsref::name_from_text(tgt); break;
+      case ARES_REC_TYPE_CNAME: ares_dns_rr_set_str(rr, ARES_RR_CNAME_CNAME, tgt.c_str()); e.target = dnsref::name_from_text(tgt); break;
+      case ARES_REC_TYPE_MX: e.pref = (uint16_t)r.below(1000); ares_dns_rr_set_u16(rr, ARES_RR_MX_PREFERENCE, e.pref); ares_dns_rr_set_str(rr, ARES_RR_MX_EXCHANGE, tgt.c_str()); e.target = dnsref::name_from_text(tgt); break;
+      case ARES_REC_TYPE_SRV: e.pref = (uint16_t)r.below(100); e.weight = (uint16_t)r.below(100); e.port = (uint16_t)r.below(65535);
+        ares_dns_rr_set_u16(rr, ARES_RR_SRV_PRIORITY, e.pref); ares_dns_rr_set_u16(rr, ARES_RR_SRV_WEIGHT, e.weight); ares_dns_rr_set_u16(rr, ARES_RR_SRV_PORT, e.port);
+        ares_dns_rr_set_str(rr, ARES_RR_SRV_TARGET, tgt.c_str()); e.target = dnsref::name_from_text(tgt); break;
+      case ARES_REC_TYPE_TXT: { std::string txt(1 + r.below(r.chance(0.2) ? 250 : 40), 'a' + (char)r.below(26)); ares_dns_rr_add_abin(rr, ARES_RR_TXT_DATA, (const unsigned char *)txt.data(), txt.size()); e.strs.push_back(txt); break; }
+      default: break;
+    }
+    (sect == ARES_SECTION_AUTHORITY ? exp.ns : exp.ar).push_back(e);
+  }
+  if (ok && r.chance(0.6)) {
+    ares_dns_rr_t *rr = nullptr;
+    if (ares_dns_record_rr_add(&rr, rec, ARES_SECTION_ADDITIONAL, "", ARES_REC_TYPE_OPT, ARES_CLASS_IN, 0) == ARES_SUCCESS) {
+      ares_dns_rr_set_u16(rr, ARES_RR_OPT_UDP_SIZE, 4096); ares_dns_rr_set_u8(rr, ARES_RR_OPT_VERSION, 0); ares_dns_rr_set_u16(rr, ARES_RR_OPT_FLAGS, 0x8000);
+      dnsref::RR o; o.type = dnsref::T_OPT; o.klass = 4096; o.ttl = 0x8000;
+      if (r.chance(0.4)) { unsigned char nsid[3] = {1, 2, 3}; ares_dns_rr_set_opt(rr, ARES_RR_OPT_OPTIONS, 3, nsid, 3); o.opts.push_back(dnsref::EdnsOpt{3, std::string((const char *)nsid, 3)}); }
+      exp.ar.push_back(o);
+    }
+  }
+  if (!ok) { ares_dns_record_destroy(rec); rq.accepted = false; return; }
+  g_rich[token].expect = exp;
+  run.note("rich_request");
+  W.api_seq++;
+  CbArg *arg = run.cbargs.back().get();
+  extern void (*g_cb_dnsrec)(void *, ares_status_t, size_t, const ares_dns_record_t *);
+  int ret = ares_send_dnsrec(c.ch, rec, g_cb_dnsrec, arg, nullptr);
+  ares_dns_record_destroy(rec);
+  Req &r2 = run.reqs[(size_t)token];
+  r2.api_ret = ret; r2.in_call = false;
+  if (r2.cb_count > 0) r2.done_sync = true;
+}
+
+// ---------------------------------------------------------------------------------------------
+// C06: retries bounded, waits within the envelope
+// ---------------------------------------------------------------------------------------------
+struct C06State {
+  std::map<std::string, int> tx_count;           // token|qname|qtype|qid -> transmissions
+  std::map<std::pair<int, long long>, int> seen; // (qid, ts) attempts already checked
+  bool any_success = false;
+};
+static C06State g_c06;
+
+static void c06_tx(Run &run, Tx &t) {
+  if (!t.decode_err.empty() || t.msg.qd.empty()) return;
+  std::string k = std::to_string(t.token) + "|" + t.qname_lc + "|" + std::to_string(t.msg.qd[0].type) + "|" + std::to_string(t.msg.id);
+  int n = ++g_c06.tx_count[k];
+  int S = run.max_active > 0 ? run.max_active : (int)run.cfg.servers.size();
+  if (run.cfg.server_source == 2) S = (int)run.cfg.servers.size();
+  int T = run.eff_tries > run.max_tries_seen ? run.eff_tries : run.max_tries_seen;
+  run.max_tries_seen = T;
+  if (n > S * T + 5) run.violate("C06", "too_many_transmissions", "wire query " + k + " transmitted " + std::to_string(n) + " times; budget servers(" + std::to_string(S) + ") x tries(" + std::to_string(T) + ") + 5");
+  if (n > S * T) run.note("tx_beyond_servers_x_tries");
+  if (n == S * T + 5) run.note("tx_budget_exactly_reached");
+}
+
+static void c06_after(Run &run) {
+  Chan &c = run.chans[0];
+  if (!c.alive || !peek_available()) return;
+  peek_qinfo q[64];
+  int n = peek_queries(c.ch, q, 64);
+  for (auto &e : run.srv_events) if (e.ok) { g_c06.any_success = true; break; }
+  long long cap = run.eff_maxtimeout_ms > 0 ? run.eff_maxtimeout_ms : 5000;
+  for (int i = 0; i < n; i++) {
+    auto key = std::make_pair((int)q[i].qid, q[i].ts_us);
+    if (g_c06.seen.count(key)) continue;
+    g_c06.seen[key] = 1;
+    long long wait_ms = (q[i].deadline_us - q[i].ts_us) / 1000;
+    long long floor_ms = std::min<long long>(cap, 250);
+    if (!g_c06.any_success) floor_ms = std::min<long long>(cap, std::max<long long>(250, run.eff_timeout_ms));
+    run.note("attempt_wait_checked");
+    if (wait_ms < floor_ms) run.violate("C06", "wait_below_floor", "attempt (qid " + std::to_string(q[i].qid) + ", try " + std::to_string(q[i].try_count) + ") waits " + std::to_string(wait_ms) + " ms, floor " + std::to_string(floor_ms) + " ms (timeout " + std::to_string(run.eff_timeout_ms) + ", maxtimeout " + std::to_string(run.eff_maxtimeout_ms) + ")");
+    if (run.eff_maxtimeout_ms > 0 && wait_ms > run.eff_maxtimeout_ms) run.violate("C06", "wait_above_max", "attempt waits " + std::to_string(wait_ms) + " ms, configured maximum " + std::to_string(run.eff_maxtimeout_ms) + " ms");
+    if (run.eff_maxtimeout_ms == 0) {
+      size_t ns = peek_num_servers(c.ch);
+      unsigned long rounds = ns ? q[i].try_count / ns : 0;
+      if (rounds < 40) { long long ub = 5000LL << rounds; if (wait_ms > ub) run.violate("C06", "wait_above_envelope", "attempt in round " + std::to_string(rounds) + " waits " + std::to_string(wait_ms) + " ms > 5000 * 2^round"); }
+      if (rounds >= 1) run.note("attempt_in_later_round");
+    }
+  }
+}
+
+// ---------------------------------------------------------------------------------------------
+// C10: interest invariants at step boundaries
+// ---------------------------------------------------------------------------------------------
+static void c10_after(Run &run) {
+  Chan &c = run.chans[0];
+  if (!c.alive) return;
+  for (int fd : W.open_sockets()) {
+    VFd *v = W.get(fd);
+    if (v->server_idx < 0 && !v->connected && v->tstate == TS_CREATED) continue;
+    auto it = c.interest.find(fd);
+    bool rd = it != c.interest.end() && it->second.first, wr = it != c.interest.end() && it->second.second;
+    // a fast-open TCP connection whose first write was deferred through the pending-write notification has not been
+    // used at all yet; the application has been told to call ares_process_pending_write() instead
+    if (v->kind == FD_TCP && v->n_send_ok == 0 && c.pending_write > 0) { run.note("tfo_conn_awaiting_pending_write"); continue; }
+    if (!rd) run.violate("C10", "open_socket_not_watched", "socket " + std::to_string(fd) + " is open but the application was not told to watch it for reading");
+    if (v->kind == FD_TCP && v->tstate == TS_CONNECTING && !v->tfo && !wr) run.violate("C10", "connect_pending_not_watched", "tcp socket " + std::to_string(fd) + " has a pending connect but no write interest was announced");
+    if (v->kind == FD_TCP && v->tstate == TS_ESTABLISHED && v->write_blocked && !wr) run.violate("C10", "partial_write_not_watched", "tcp socket " + std::to_string(fd) + " has unsent data after a short/blocked write but no write interest was announced");
+    if (rd && W.readable(*v)) run.note("readable_while_watched");
+  }
+}
+
+// ---------------------------------------------------------------------------------------------
+void profile_attach_more(Run &run) {
+  const std::string &p = run.cfg.profile;
+  g_rich.clear();
+  g_c06 = C06State();
+  // cheap cross-property observers: always on (reported for the owning property only)
+  run.tx_obs.push_back(c03_tx);
+  run.tx_obs.push_back(c06_tx);
+  auto prev_done = run.on_done;
+  run.on_done = [prev_done](Run &r, Req &q) { if (prev_done) prev_done(r, q); c03_done(r, q); };
+  auto prev_after = run.after_step;
+  run.after_step = [prev_after, p](Run &r) { if (prev_after) prev_after(r); c06_after(r); if (r.cfg.mode == 0) c10_after(r); };
+  if (p == "C03") {
+    run.extra_step = [](Run &r, const Step &s) { (void)r; (void)s; };
+    // a share of the requests are setter-built multi-record messages
+    auto base = run.extra_step;
+    run.pre_req = [](Run &r, const Step &s) { if ((int)(s.c % 100) < r.cfg.knob("rich_pct", 0)) { c03_rich_request(r, s); return true; } return false; };
+  }
+}
 
 bool profile_nontrivial(const Run &run) {
   auto get = [&](const char *k) { auto it = run.probe.find(k); return it == run.probe.end() ? (int64_t)0 : it->second; };
-  return !W.txs.empty() && (get("process_with_events") > 0);
+  const std::string &p = run.cfg.profile;
+  bool base = !W.txs.empty() && get("process_with_events") > 0;
+  if (p == "C03") return base && (get("rich_frame_checked") > 0 || get("answer_roundtrip_checked") > 0);
+  if (p == "C06") return base && get("attempt_wait_checked") > 0;
+  if (p == "C07") return base && get("hint_checked_with_deadline") > 0 && get("adv_with_expired") > 0;
+  if (p == "C10") return base && W.stat.count("sock_udp_opened");
+  if (p == "C01") return base && (get("req_from_callback") + get("cancel_in_callback") + get("cancel_with_outstanding") > 0 || !W.fault_fired.empty());
+  return base;
 }
 
 const char *profile_rule(const std::string &prof) {
-  (void)prof;
+  if (prof == "C03") return "runs are seeded plans (requests by name / setter-built multi-record messages / legacy builder, transport chunking so frames queue behind unsent bytes); non-trivial = at least one setter-built frame or one delivered answer was compared with the reference codec; distinct = distinct trace-shape hash";
+  if (prof == "C06") return "runs are seeded plans over per-attempt server outcomes, option extremes (tries up to 100, timeouts 1 ms..INT_MAX, maxtimeout below the floor), list edits; non-trivial = at least one attempt's wait was checked against the envelope and traffic was processed; distinct = distinct trace-shape hash";
+  if (prof == "C07") return "runs are seeded plans with silent/slow servers and sleep-exactly/overshoot/stall steps; non-trivial = the hint was compared with a real deadline and at least one loop turn ran with an expired deadline; distinct = distinct trace-shape hash";
+  if (prof == "C10") return "runs are seeded plans over UDP/TCP/TFO mixes, per-socket limits, failing socket callbacks and per-call socket faults; non-trivial = sockets were opened and readiness events processed; distinct = distinct trace-shape hash";
+  if (prof == "C01") return "runs are seeded API histories with re-entrant callbacks, cancels, socket faults; non-trivial = traffic processed and (a request or cancel issued from a callback, a cancel with requests outstanding, or an injected fault fired); distinct = distinct trace-shape hash (sequence of step kinds, call kinds/outcomes, callback statuses)";
   return "a run is non-trivial when at least one request reached the virtual network and at least one readiness event was processed; distinct = distinct trace-shape hash (sequence of step kinds, call kinds/outcomes, callback statuses)";
 }
